@@ -129,13 +129,14 @@ class FaultyFactory:
     being integrated currently has a parameter value in `poison` (content-keyed, so 'row 3
     fails' means the same thing sequentially, in a pool, and in any completion order)."""
 
-    def __init__(self, inner: str = "scipy", poison: tuple[float, ...] = (), mode: str = "fail") -> None:
+    def __init__(self, inner: str = "scipy", poison: tuple[float, ...] = (), mode: str = "fail", poison_all: tuple[float, ...] = ()) -> None:
         self.inner = inner
         self.poison = tuple(poison)
         self.mode = mode  # "fail": return an IntegrationFailure result; "raise": raise SimulatedSolverCrash
+        self.poison_all = tuple(poison_all)  # fails only while ALL of these values are in force together
 
     def __call__(self, rhs, y0, jacobian=None):  # noqa: ANN001, ANN204
-        return FaultyIntegrator(rhs, y0, jacobian, inner=self.inner, poison=self.poison, mode=self.mode)
+        return FaultyIntegrator(rhs, y0, jacobian, inner=self.inner, poison=self.poison, mode=self.mode, poison_all=self.poison_all)
 
 
 def inner_type(name: str):  # noqa: ANN201
@@ -159,9 +160,10 @@ class SimulatedSolverCrash(RuntimeError):
 
 
 class FaultyIntegrator:
-    def __init__(self, rhs, y0, jacobian=None, *, inner: str, poison: tuple[float, ...], mode: str = "fail") -> None:  # noqa: ANN001
+    def __init__(self, rhs, y0, jacobian=None, *, inner: str, poison: tuple[float, ...], mode: str = "fail", poison_all: tuple[float, ...] = ()) -> None:  # noqa: ANN001
         self.model = rhs
         self.poison = poison
+        self.poison_all = poison_all
         self.mode = mode
         self.inner = inner_type(inner)(rhs, y0, jacobian)
 
@@ -172,8 +174,10 @@ class FaultyIntegrator:
             m = next((a for a in getattr(m, "args", ()) if hasattr(a, "get_parameter_values")), None)
             if m is None:
                 return False
-        vals = m.get_parameter_values().values()
-        return any(float(v) in self.poison for v in vals)
+        vals = [float(v) for v in m.get_parameter_values().values()]
+        if self.poison_all and all(p in vals for p in self.poison_all):
+            return True
+        return any(v in self.poison for v in vals)
 
     def _fail(self):  # noqa: ANN202
         from mxlpy.types import IntegrationFailure
